@@ -250,7 +250,12 @@ pub fn gen_recover(rng: &mut Rng) -> G {
         _ => gen_item(rng, 1),
     });
     let r = G::Recover(rng.below(4) as u8, inner, gen_rec(rng));
-    match rng.below(6) {
+    match rng.below(8) {
+        // the recovery token is consumed by a plain parser, then a stabilising parser runs on the
+        // still-recovering lexer
+        6 => G::Both(Box::new(r), Box::new(G::Right(Box::new(G::Any(vec![4, 5])), Box::new(G::Stabilize(Box::new(gen_item(rng, 1))))))),
+        7 => G::Both(Box::new(r), Box::new(G::Right(Box::new(G::Any(vec![4, 5])),
+                Box::new(G::Unrecoverable(Box::new(G::List(rng.below(4) as u8, 0, None, Box::new(G::One(0)), 4, vec![9]))))))),
         0 => r,
         1 => G::Repeat(0, 0, Some(1 + rng.below(3)), Box::new(G::Both(Box::new(r), Box::new(G::Maybe(Box::new(G::Any(vec![4, 5]))))))),
         2 => G::Both(Box::new(r), Box::new(gen_leaf(rng))),
@@ -287,6 +292,12 @@ pub fn gen_list(rng: &mut Rng) -> G {
         _ => G::Both(Box::new(G::One(0)), Box::new(G::Maybe(Box::new(G::One(1))))),
     });
     let abort: Vec<u32> = match rng.below(3) { 0 => vec![9], 1 => vec![5, 9], _ => vec![5] };
+    if rng.chance(1, 6) {
+        // rows of items: the item parser is itself a (recovering) list
+        let inner = G::List(1 + 2 * rng.below(2) as u8, rng.below(2), None, Box::new(G::One(0)), 4, vec![5, 9]);
+        let outer = G::List(rng.below(4) as u8, 0, None, Box::new(inner), 5, vec![9]);
+        return if rng.chance(1, 2) { outer } else { G::Bracket(rng.below(4) as u8, vec![8], Box::new(outer), vec![9], vec![]) };
+    }
     let l = G::List(rng.below(4) as u8, lo, hi, item, 4, abort);
     match rng.below(4) {
         0 | 1 => l,
@@ -321,6 +332,11 @@ fn gen_bracket_plain(rng: &mut Rng) -> G {
 }
 
 fn gen_list_plain(rng: &mut Rng) -> G {
+    if rng.chance(1, 3) {
+        let inner = G::List(1 + 2 * rng.below(2) as u8, 1, None, Box::new(G::One(0)), 4, vec![5, 9]);
+        let outer = G::List(rng.below(4) as u8, 0, None, Box::new(inner), 5, vec![9]);
+        return G::Bracket(rng.below(4) as u8, vec![8], Box::new(outer), vec![9], vec![]);
+    }
     G::List(rng.below(4) as u8, 0, None, Box::new(G::One(0)), 4, vec![5, 9])
 }
 
@@ -439,7 +455,7 @@ fn emit(out: &mut Out, family: &str, c: &Case) {
 pub fn family(out: &mut Out, family: &str, tier: &Tier, rng: &mut Rng) {
     let n = match (family, tier.thorough) {
         (_, true) => 60000,
-        (_, false) => 4000,
+        (_, false) => 15000,
     };
     // exhaustive small part: a fixed set of small grammars x all short token strings
     if family == "peg" {
@@ -500,7 +516,8 @@ pub fn family(out: &mut Out, family: &str, tier: &Tier, rng: &mut Rng) {
                 c
             }
             "term" | "nopanic" => {
-                let g = match rng.below(8) {
+                let g = match rng.below(10) {
+                    8 | 9 => gen_recover(rng),
                     0 => gen_peg(rng, 2),
                     1 => gen_rep(rng),
                     2 => gen_bracket(rng, 1),
